@@ -53,7 +53,13 @@ def histLine (withRet : Bool) (k off raw ops : String) : String :=
 
 def showDetect : Py XorFile → String
   | .error e => "exc " ++ e.name
-  | .ok x => s!"ok {x.nonceOff} {x.fh.tell} {tell x}"
+  | .ok x =>
+    -- what the view returned by the detection then decodes: its first 12 bytes (a detector that hands back a view
+    -- with stale decoding state has the right offset and the wrong bytes)
+    let head := match read x (some 12) with
+      | .ok (bs, _) => showBytes bs
+      | .error e => "exc" ++ e.name
+    s!"ok {x.nonceOff} {x.fh.tell} {tell x} {head}"
 
 def step : List String → String
   | ["hist", k, off, raw, ops] => histLine false k off raw ops
